@@ -5,8 +5,10 @@ import (
 	"errors"
 	"fmt"
 	"net"
+	"runtime"
 	"strconv"
 	"strings"
+	"sync/atomic"
 	"time"
 
 	"github.com/nextdns/nextdns/proxy"
@@ -97,9 +99,89 @@ func runListen(n int, udpFail, tcpFail string, stopMs int) string {
 	return fmt.Sprintf("returned=%d err=%s rebind=%s", returned, cls, rebind)
 }
 
+// runListenBurst: every listener of n addresses fails to bind (the ports are held on UDP and TCP),
+// and the listener goroutines are lined up just before they bind (InfoLog is called by each right
+// before binding) so that their reports race with main's own; repeated `rounds` times. Each start
+// must return the bind error within 3 s. Stops at the first round that does not.
+//
+// case: listenburst <n> <rounds> <rep>
+func runListenBurst(n, rounds int) string {
+	addrs := make([]string, n)
+	var held []interface{ Close() error }
+	for i := 0; i < n; i++ {
+		for try := 0; try < 50; try++ {
+			a := "127.0.0.1:" + strconv.Itoa(freePort())
+			u, err := net.ListenPacket("udp", a)
+			if err != nil {
+				continue
+			}
+			t, err := net.Listen("tcp", a)
+			if err != nil {
+				u.Close()
+				continue
+			}
+			held = append(held, u, t)
+			addrs[i] = a
+			break
+		}
+		if addrs[i] == "" {
+			return "harness: no port free on both UDP and TCP"
+		}
+	}
+	returned := 0
+	cls := "bind"
+	for k := 0; k < rounds; k++ {
+		var arrived int32
+		want := int32(2 * n)
+		p := proxy.Proxy{Addrs: addrs, Upstream: &scripted{pick: nil}, MaxInflightRequests: 8,
+			InfoLog: func(string) {
+				atomic.AddInt32(&arrived, 1)
+				for dl := time.Now().Add(20 * time.Millisecond); atomic.LoadInt32(&arrived) < want && time.Now().Before(dl); {
+					runtime.Gosched()
+				}
+			}}
+		done := make(chan error, 1)
+		go func() { done <- p.ListenAndServe(context.Background()) }()
+		select {
+		case err := <-done:
+			if c := classifyListenErr(err, false); c != "bind" {
+				cls = c
+			} else {
+				returned++
+			}
+		case <-time.After(3 * time.Second):
+			cls = "-"
+		}
+		if returned != k+1 {
+			break
+		}
+	}
+	for _, h := range held {
+		h.Close()
+	}
+	rebind := "ok"
+	for _, a := range addrs {
+		if c, err := net.ListenPacket("udp", a); err != nil {
+			rebind = "busy"
+		} else {
+			c.Close()
+		}
+		if c, err := net.Listen("tcp", a); err != nil {
+			rebind = "busy"
+		} else {
+			c.Close()
+		}
+	}
+	return fmt.Sprintf("returned=%d/%d err=%s rebind=%s", returned, rounds, cls, rebind)
+}
+
 func init() {
 	areas["listen"] = func(c *Ctx) error {
 		r := NewRng(c.seed)
+		burst := func(n, rounds, rep int) {
+			c.Emit(fmt.Sprintf("listenburst %d %d %d", n, rounds, rep), runListenBurst(n, rounds))
+			c.Stat("kind:burst-allfail")
+		}
 		one := func(n int, uf, tf string, stop, rep int) {
 			out := runListen(n, uf, tf, stop)
 			c.Emit(fmt.Sprintf("listen %d %s %s %d %d", n, uf, tf, stop, rep), out)
@@ -114,6 +196,14 @@ func init() {
 		if ls := replayLines(); ls != nil {
 			for _, l := range ls {
 				f := strings.Fields(l)
+				if len(f) == 4 && f[0] == "listenburst" {
+					n, _ := strconv.Atoi(f[1])
+					rounds, _ := strconv.Atoi(f[2])
+					rep, _ := strconv.Atoi(f[3])
+					if n >= 1 && n <= 4 && rounds >= 1 && rounds <= 100000 {
+						burst(n, rounds, rep)
+					}
+				}
 				if len(f) == 6 && f[0] == "listen" {
 					n, _ := strconv.Atoi(f[1])
 					stop, _ := strconv.Atoi(f[4])
@@ -126,6 +216,11 @@ func init() {
 			return nil
 		}
 		for i := 0; i < c.n; i++ {
+			if i%25 == 3 {
+				// all listeners fail at about the same time, many starts in a row
+				burst(1+r.Intn(2)*r.Intn(2), 150, i)
+				continue
+			}
 			n := 1 + r.Intn(4)
 			uf, tf := "", ""
 			for j := 0; j < n; j++ {
